@@ -172,6 +172,13 @@ def relations(case, impl):
             t = T.get((w, "A", red))
             if t is not None and t != za:
                 bad.append(("int-width", "i64 table differs from %s table red=%d" % ({"W": "i128", "B": "BigInt"}[w], red)))
+        # the same pieces computed without generators (compute_homology(with_trans = false)), i64 and i128
+        for w in ("N", "M"):
+            t = T.get((w, "A", red))
+            if t is not None and t != za:
+                cells = sorted(k for k in set(t) | set(za) if t.get(k) != za.get(k))
+                bad.append(("no-generators", "the %s table computed without generators differs from the table with generators, red=%d at cells %s"
+                            % ({"N": "i64", "M": "i128"}[w], red, cells[:6])))
     # F2: unreduced = reduced (x) unknot
     u, r = T.get(("F2", "A", 0)), T.get(("F2", "A", 1))
     if u is not None and r is not None:
